@@ -8,7 +8,7 @@
    alphabet contains every macro and compares pass / panic and the resulting tree on both backends. *)
 From stdpp Require Import gmap.
 From Coq Require Import NArith.
-From RV Require Import Base.Str Base.Utf8 Path.Helpers Path.Expand Memfs.State Memfs.Ops Memfs.Step Macros.Asserts Macros.AssertsFacts.
+From RV Require Import Base.Str Base.Utf8 Path.Helpers Path.Expand Memfs.State Memfs.Ops Memfs.Step Macros.Asserts Macros.AssertsFacts Macros.AssertsMore.
 
 Theorem C20_exists_iff : forall env m s, (a_exists env m s).2 = Pass <-> exists p, resolve env m s = inl p /\ exists_at m p = true.
 Proof. exact a_exists_iff. Qed.
@@ -68,3 +68,27 @@ Print Assumptions C20_symlink_post.
 Theorem C20_remove_post : forall env m s m', a_remove env m s = (m', Pass) -> exists p, resolve env m s = inl p /\ exists_at m' p = false.
 Proof. exact a_remove_post. Qed.
 Print Assumptions C20_remove_post.
+
+(* the link-reading checkers *)
+Theorem C20_readlink_iff : forall env m s x, (a_readlink env m s x).2 = Pass <->
+  exists p e, resolve env m s = inl p /\ m_ents m !! p = Some e /\ e_link e = true /\ e_rel e = x.
+Proof. exact a_readlink_iff. Qed.
+Print Assumptions C20_readlink_iff.
+
+Theorem C20_readlink_abs_iff : forall env m s x, (a_readlink_abs env m s x).2 = Pass <->
+  exists p t e, resolve env m s = inl p /\ resolve env m x = inl t /\ m_ents m !! p = Some e /\ e_link e = true /\ e_alt e = Some t.
+Proof. exact a_readlink_abs_iff. Qed.
+Print Assumptions C20_readlink_abs_iff.
+
+Theorem C20_readlink_macros_pure : forall env m s x, (a_readlink env m s x).1 = m /\ (a_readlink_abs env m s x).1 = m.
+Proof. exact readlink_macros_pure. Qed.
+Print Assumptions C20_readlink_macros_pure.
+
+Theorem C20_mkdir_m_post : forall env m s mode m', a_mkdir_m env m s mode = (m', Pass) ->
+  exists p e, resolve env m s = inl p /\ is_dir_at m' p = true /\ m_ents m' !! p = Some e /\ N.land (e_mode e) 4095 = N.land mode 4095.
+Proof. exact a_mkdir_m_post. Qed.
+Print Assumptions C20_mkdir_m_post.
+
+Theorem C20_remove_all_post : forall env m s m', a_remove_all env m s = Done (m', Pass) -> exists p, resolve env m s = inl p /\ exists_at m' p = false.
+Proof. exact a_remove_all_post. Qed.
+Print Assumptions C20_remove_all_post.
